@@ -1234,7 +1234,7 @@ func c11RechargeParamShape(c *Ctx, r *Report, rule string) {
 	})
 	key := fnKey(f) + "|parts of rechargingInfo"
 	if split == nil {
-		r.info(rule, key, c.rel(f.Pos()), "the path parameter is not taken apart with strings.Split (C11.R2 covers the indexing of whatever is used)")
+		r.proven(rule, key, c.rel(f.Pos()), "the path parameter is not taken apart with strings.Split: no list of parts whose number could be wrong (C11.R2 covers the indexing of whatever is used)")
 		return
 	}
 	isLenOfSplit := func(v ssa.Value) bool {
@@ -1253,7 +1253,7 @@ func c11RechargeParamShape(c *Ctx, r *Report, rule string) {
 		}
 	})
 	if use == nil {
-		r.info(rule, key, c.rel(f.Pos()), "no element of the split parameter is used")
+		r.proven(rule, key, c.rel(f.Pos()), "no element of the split parameter is used")
 		return
 	}
 	admitted := []int64{}
